@@ -221,12 +221,12 @@ pub const MULTI_RULES: &[&str] = &[
 
 pub fn run(id: &str, cfg: &RunCfg) -> PropResult {
     let (p, quick, thorough) = prop(id);
-    let report = if let Some(case) = cfg.case.as_ref().filter(|c| c.starts_with('u') || c.starts_with('k') || c.starts_with('v') || c.starts_with('i') || c.starts_with('q') || c.starts_with('g') || c.starts_with('x')) {
+    let report = if let Some(case) = cfg.case.as_ref().filter(|c| c.starts_with('u') || c.starts_with('k') || c.starts_with('v') || c.starts_with('i') || c.starts_with('q') || c.starts_with('g') || c.starts_with('x') || c.starts_with('b')) {
         let mut it = case[1..].split(':');
         let seed: u64 = it.next().and_then(|s| s.parse().ok()).unwrap_or(cfg.seed);
         let idx: u64 = it.next().and_then(|s| s.parse().ok()).unwrap_or(0);
         let mut r = crate::report::Report::default();
-        r.add(idx, if case.starts_with('x') { super::racelanes::geometry_sweep_case(idx) } else if case.starts_with('g') { super::racelanes::retarget_window_case(seed, idx) } else if case.starts_with('u') { super::racelanes::suspend_race_case(seed, idx) } else if case.starts_with('v') { super::racelanes::move_cursor_finish_case(seed, idx) } else if case.starts_with('i') { super::racelanes::iter_finish_case(seed, idx) } else if case.starts_with('q') { super::racelanes::sequential_bars_case(seed, idx) } else { super::racelanes::ticker_race_case(seed, idx) });
+        r.add(idx, if case.starts_with('x') { super::racelanes::geometry_sweep_case(idx) } else if case.starts_with('b') { super::racelanes::bottom_spare_case(seed, idx) } else if case.starts_with('g') { super::racelanes::retarget_window_case(seed, idx) } else if case.starts_with('u') { super::racelanes::suspend_race_case(seed, idx) } else if case.starts_with('v') { super::racelanes::move_cursor_finish_case(seed, idx) } else if case.starts_with('i') { super::racelanes::iter_finish_case(seed, idx) } else if case.starts_with('q') { super::racelanes::sequential_bars_case(seed, idx) } else { super::racelanes::ticker_race_case(seed, idx) });
         r
     } else if let Some(case) = cfg.case.as_ref().filter(|c| c.starts_with('c')) {
         let mut it = case[1..].split(':');
@@ -259,6 +259,11 @@ pub fn run(id: &str, cfg: &RunCfg) -> PropResult {
             // schedule part: a second thread's update let loose inside a suspend closure
             let nu = if cfg.thorough { 40_000 } else { 1_200 };
             r.merge(crate::report::run_parallel_tagged('u', nu, workers(), |i| super::racelanes::suspend_race_case(cfg.seed, i)));
+        }
+        if id == "C03" {
+            // configuration part: bottom alignment with spare rows left by cleared members, then logs and redraws
+            let nb = if cfg.thorough { 300_000 } else { 5_000 };
+            r.merge(crate::report::run_parallel_tagged('b', nb, workers(), |i| super::racelanes::bottom_spare_case(cfg.seed, i)));
         }
         if id == "C04" {
             // configuration part: the one finishing history the move-cursor mode supports without residue
